@@ -36,9 +36,10 @@ def rand_opt(rng):
 
 
 def ob_ip(o):
+    # annotated: a shard in which no case yields an address must still type-check
     if "panic" in o or o.get("timeout"):
-        return "None"
-    return "Some None" if o["ip"] is None else "Some (Some %s)" % C.cN(bytes.fromhex(o["ip"]))
+        return "(None : option (option (list N)))"
+    return "(Some None : option (option (list N)))" if o["ip"] is None else "Some (Some %s)" % C.cN(bytes.fromhex(o["ip"]))
 
 
 class NasWell(Stream):
@@ -165,8 +166,8 @@ class NasMal(Stream):
 
 def ob_tr(o):
     if "panic" in o or o.get("timeout"):
-        return "None"
-    return "Some (%d, %s)" % (o["teid"], "None" if o["ip"] is None else "Some " + C.cN(bytes.fromhex(o["ip"])))
+        return "(None : option (N * option (list N)))"
+    return "(Some (%d, %s) : option (N * option (list N)))" % (o["teid"], "None" if o["ip"] is None else "Some " + C.cN(bytes.fromhex(o["ip"])))
 
 
 class TransferSpec(Stream):
@@ -272,6 +273,14 @@ class TransferMal(Stream):
                 head = bytes([0x00, 0x00, 0x02, ident[0], ident[1], 0x40, L])
                 cs.append({"transfer": (head + rng.bytes(L) + tun).hex(), "kind": "length-octet"})
                 cs.append({"transfer": (head + rng.bytes(rng.below(6))).hex(), "kind": "length-octet-short"})
+        # the tunnel IE itself with every small value length (an IPv4 tunnel value has 10 octets; shorter ones cannot hold
+        # address and TEID), first and after another IE, complete and cut short
+        for L in range(0, 14):
+            for pre in (b"", bytes([0x00, 0x82, 0x00, 0x03, 1, 2, 3])):
+                t = bytes([0x00, 0x00, 0x02]) + pre + bytes([0x00, 0x8b, 0x00, L])
+                cs.append({"transfer": (t + rng.bytes(L)).hex(), "kind": "tunnel-length"})
+                cs.append({"transfer": (t + rng.bytes(L) + bytes([0x00, 0x86, 0x00, 0x01, 0x00])).hex(), "kind": "tunnel-length"})
+                cs.append({"transfer": (t + rng.bytes(L // 2)).hex(), "kind": "tunnel-length-short"})
         return cs
 
     def go_case(self, c):
